@@ -75,7 +75,7 @@ static void zmMul(word c[], const word a[], const word b[],
 
 static size_t zmMul_deep(size_t n)
 {
-	return utilMax(2,
+	return O_OF_W(2 * n) + utilMax(2,
 		zzMul_deep(n, n),
 		zzRed_deep(n));
 }
@@ -93,7 +93,7 @@ static void zmSqr(word b[], const word a[], const qr_o* r, void* stack)
 
 static size_t zmSqr_deep(size_t n)
 {
-	return utilMax(2,
+	return O_OF_W(2 * n) + utilMax(2,
 		zzSqr_deep(n),
 		zzRed_deep(n));
 }
@@ -199,7 +199,7 @@ static void zmMulCrand(word c[], const word a[], const word b[],
 
 static size_t zmMulCrand_deep(size_t n)
 {
-	return utilMax(2,
+	return O_OF_W(2 * n) + utilMax(2,
 		zzMul_deep(n, n),
 		zzRedCrand_deep(n));
 }
@@ -217,7 +217,7 @@ static void zmSqrCrand(word b[], const word a[], const qr_o* r, void* stack)
 
 static size_t zmSqrCrand_deep(size_t n)
 {
-	return utilMax(2,
+	return O_OF_W(2 * n) + utilMax(2,
 		zzSqr_deep(n),
 		zzRedCrand_deep(n));
 }
@@ -300,7 +300,7 @@ static void zmMulBarr(word c[], const word a[], const word b[],
 
 static size_t zmMulBarr_deep(size_t n)
 {
-	return utilMax(2,
+	return O_OF_W(2 * n) + utilMax(2,
 		zzMul_deep(n, n),
 		zzRedBarr_deep(n));
 }
@@ -318,7 +318,7 @@ static void zmSqrBarr(word b[], const word a[], const qr_o* r, void* stack)
 
 static size_t zmSqrBarr_deep(size_t n)
 {
-	return utilMax(2,
+	return O_OF_W(2 * n) + utilMax(2,
 		zzSqr_deep(n),
 		zzRedBarr_deep(n));
 }
@@ -449,7 +449,7 @@ static void zmMulMont(word c[], const word a[], const word b[],
 
 static size_t zmMulMont_deep(size_t n)
 {
-	return utilMax(2,
+	return O_OF_W(2 * n) + utilMax(2,
 		zzMul_deep(n, n),
 		zzRedMont_deep(n));
 }
@@ -467,7 +467,7 @@ static void zmSqrMont(word b[], const word a[], const qr_o* r, void* stack)
 
 static size_t zmSqrMont_deep(size_t n)
 {
-	return utilMax(2,
+	return O_OF_W(2 * n) + utilMax(2,
 		zzSqr_deep(n),
 		zzRedMont_deep(n));
 }
@@ -507,7 +507,7 @@ static void zmDivMont(word b[], const word divident[], const word a[],
 
 static size_t zmDivMont_deep(size_t n)
 {
-	return utilMax(2,
+	return O_OF_W(n) + utilMax(2,
 		zmInvMont_deep(n),
 		zmMulMont_deep(n));
 }
@@ -671,7 +671,7 @@ static void zmMulMont2(word c[], const word a[], const word b[],
 
 static size_t zmMulMont2_deep(size_t n)
 {
-	return utilMax(2,
+	return O_OF_W(2 * n) + utilMax(2,
 		zzMul_deep(n, n),
 		zzRedMont_deep(n));
 }
@@ -698,7 +698,7 @@ static void zmSqrMont2(word b[], const word a[], const qr_o* r, void* stack)
 
 static size_t zmSqrMont2_deep(size_t n)
 {
-	return utilMax(2,
+	return O_OF_W(2 * n) + utilMax(2,
 		zzSqr_deep(n),
 		zzRedMont_deep(n));
 }
@@ -740,7 +740,7 @@ static void zmDivMont2(word b[], const word divident[], const word a[],
 
 static size_t zmDivMont2_deep(size_t n)
 {
-	return utilMax(2,
+	return O_OF_W(n) + utilMax(2,
 		zmInvMont2_deep(n),
 		zmMulMont2_deep(n));
 }
